@@ -1,0 +1,18 @@
+//go:build verif
+
+package oxia
+
+import (
+	"time"
+
+	"github.com/oxia-db/oxia/common/rpc"
+	"github.com/oxia-db/oxia/oxia/internal"
+)
+
+// Re-export for the /verif correspondence harness (a separate module cannot import oxia/internal). No logic.
+
+type VerifShardManager = internal.VerifShardManager
+
+func NewVerifShardManager(pool rpc.ClientPool, serviceAddress string, namespace string, requestTimeout time.Duration) (*VerifShardManager, error) {
+	return internal.NewVerifShardManager(pool, serviceAddress, namespace, requestTimeout)
+}
